@@ -191,7 +191,7 @@ def _enc_scalar(ws, f, v, defaults_of, lay, path, nullable, in_array=False):
             raise RefError(f"null struct at {path}")
         encode(f.nested, v, defaults_of, lay, path)
         return
-    if kt == "string" and ws.is_request_header and f.name == "client_id":
+    if kt == "string" and ws.is_request_header and getattr(f, "pyname", f.name) == "client_id":
         compact = False
         nullable = True
     if kt in ("string", "bytes", "records"):
@@ -344,7 +344,7 @@ def _dec_scalar(ws, f, src, defaults_of, nullable, in_array):
             if m != 1:
                 raise RefError("bad struct marker")
         return decode(f.nested, src, defaults_of)
-    if kt == "string" and ws.is_request_header and f.name == "client_id":
+    if kt == "string" and ws.is_request_header and getattr(f, "pyname", f.name) == "client_id":
         compact = False
         nullable = True
     if kt in ("string", "bytes", "records"):
